@@ -94,16 +94,21 @@ Definition json_eq (a b : json) : bool := json_eqb (canon a) (canon b).
 Definition is_emptyish (j : json) : bool :=
   match j with JNull => true | JArr [] => true | JObj [] => true | _ => false end.
 
+Definition null_if_empty (j : json) : json := if is_emptyish j then JNull else j.
+
 Fixpoint erase_empty (j : json) : json :=
   match j with
-  | JArr l => JArr (map erase_empty l)
+  | JArr l => JArr (map (fun x => null_if_empty (erase_empty x)) l)
   | JObj ms =>
       JObj (fold_right (fun kv acc =>
               let v := erase_empty (snd kv) in if is_emptyish v then acc else (fst kv, v) :: acc) [] ms)
   | _ => j
   end.
 
-Definition json_eq_mod_empty (a b : json) : bool := json_eq (erase_empty a) (erase_empty b).
+(* compared AFTER erasing: an absent member, a null one and an empty collection are identified
+   (as array elements and at top level they all read as null) *)
+Definition json_eq_mod_empty (a b : json) : bool :=
+  json_eq (null_if_empty (erase_empty a)) (null_if_empty (erase_empty b)).
 
 (* ---------- equality up to omitted null members (C01) ----------
    le_null d e : e is d with some members whose value is null removed (at any depth). Asymmetric. *)
